@@ -198,11 +198,11 @@ static inline void rw_unlock(struct RW* r, unsigned i)
 RW_LOWER = [rx(r'locks\.getLocal\(\)->lock\(\)', 'rw_lock(self, g_tid)', 0), rx(r'locks\.getLocal\(\)->unlock\(\)', 'rw_unlock(self, g_tid)', 0),
             rx(r'locks\.getRemote\(i\)->lock\(\)', 'rw_lock(self, i)', 0), rx(r'locks\.getRemote\(i\)->unlock\(\)', 'rw_unlock(self, i)', 0),
             rx(r'locks\.size\(\)', 'self->n', 0)]
-NONE = '__CPROVER_forall { unsigned k_; (k_ < GV_MAXT) ==> (k_ < self->n ==> !self->held[k_]) }'
-ALL = '__CPROVER_forall { unsigned k_; (k_ < GV_MAXT) ==> (k_ < self->n ==> self->held[k_]) }'
+NONE = '__CPROVER_forall { unsigned k_; (k_ < GV_MAXT) ==> (k_ < self->n ==> self->held[k_] == 0) }'
+ALL = '__CPROVER_forall { unsigned k_; (k_ < GV_MAXT) ==> (k_ < self->n ==> self->held[k_] == 1) }'
 for nm, pre, post, loop in [
-        ('readLock', NONE, 'self->held[g_tid] && __CPROVER_forall { unsigned k_; (k_ < GV_MAXT) ==> ((k_ < self->n && k_ != g_tid) ==> !self->held[k_]) }', None),
-        ('readUnlock', 'self->held[g_tid] && __CPROVER_forall { unsigned k_; (k_ < GV_MAXT) ==> ((k_ < self->n && k_ != g_tid) ==> !self->held[k_]) }', NONE, None),
+        ('readLock', NONE, 'self->held[g_tid] == 1 && __CPROVER_forall { unsigned k_; (k_ < GV_MAXT) ==> ((k_ < self->n && k_ != g_tid) ==> self->held[k_] == 0) }', None),
+        ('readUnlock', 'self->held[g_tid] == 1 && __CPROVER_forall { unsigned k_; (k_ < GV_MAXT) ==> ((k_ < self->n && k_ != g_tid) ==> self->held[k_] == 0) }', NONE, None),
         ('writeLock', NONE, ALL, '__CPROVER_forall { unsigned a_; (a_ < GV_MAXT) ==> (a_ < self->n ==> (self->held[a_] == (a_ < i))) }'),
         ('writeUnlock', ALL, NONE, '__CPROVER_forall { unsigned a_; (a_ < GV_MAXT) ==> (a_ < self->n ==> (self->held[a_] == (a_ >= i))) }')]:
     UNITS.append(Unit(
